@@ -65,7 +65,11 @@ Definition mr_branch (d : adim) (x : ident) : option (res ident) :=
     else None
   else None.
 
-(* _ElementIdShim.translate_element_id for array types.  Ok INone is Python's None. *)
+(* _ElementIdShim.translate_element_id for array types.  Ok INone is Python's None.
+   Repaired code (commit "fix: translate_element_id(None) returns None instead of raising
+   TypeError"): the final int(_id) is wrapped in `except (ValueError, TypeError): return None`, so
+   None (a null in an id list, or a stale id that an earlier shim rewrote to None in the caller's
+   dict) translates to None.  The int() of the special MR branch is NOT inside that try. *)
 Definition translate (d : adim) (x : ident) : res ident :=
   if py_in x (aliases d) then Ok x else
   match py_index x (raw_ids d) with
@@ -78,7 +82,7 @@ Definition translate (d : adim) (x : ident) : res ident :=
   | Some i => Ok (nth_alias d i)
   | None =>
   match py_int x with
-  | IntTypeError => Raise TypeErr
+  | IntTypeError => Ok INone      (* int(None): `except (ValueError, TypeError): return None` *)
   | IntValueError => Ok INone
   | IntOk z =>
     match py_index (IInt z) (raw_ids d) with
@@ -231,16 +235,24 @@ Definition consume (d : adim) (t : xf) : view :=
    element is a JSON object {"?": -1} *)
 Inductive dtval : Type := DVal (v : ident) | DMissing.
 Definition dtdim : Type := list (ident * dtval).
-(* a translated id: an identifier or (for the missing element) an unhashable JSON object *)
+(* a translated id: an identifier or an unhashable JSON object (TObj is unreachable since the
+   repair: Proofs/ShimDatetime.v dt_translate_never_obj; kept so that a regression is expressible
+   on the implementation side of the comparison) *)
 Inductive tval : Type := TId (x : ident) | TObj.
 
-(* _element_values_dict = {el["id"]: el["value"]} (a later duplicate id wins) *)
+(* _element_values_dict = {el["id"]: el["value"] for el in elements if not isinstance(el["value"], dict)}
+   (a later duplicate id wins).  Repaired code (commit "fix: a datetime reference to the missing
+   element's position is left alone"): the missing element, whose value is a JSON object, is NOT
+   in the dict - it keeps its positional id. *)
 Fixpoint dt_lookup (k : ident) (d : dtdim) : option dtval :=
   match d with
   | [] => None
   | (k', v) :: t => match dt_lookup k t with
                     | Some v' => Some v'
-                    | None => if ident_eqb k k' then Some v else None
+                    | None => match v with
+                              | DMissing => None
+                              | DVal _ => if ident_eqb k k' then Some v else None
+                              end
                     end
   end.
 
